@@ -33,20 +33,52 @@
 (* soon as its handler returns.  FALSE is the design the property describes: the responses of one connection  *)
 (* are sequenced.  Dev_BadFramingWaits = TRUE: an undecidable length is "need more data" for ever (F-15e).    *)
 (* The terminal states of this specification are the CASES checks/C16.py runs on the real server:            *)
-(* (pipeline, order in which the gated handlers return).                                                     *)
+(* (pipeline, cuts, order in which the gated handlers return).                                               *)
+(*                                                                                                          *)
+(* Round 3 - the alphabet: tr = number of trailer fields after the last chunk of a chunked request ("C": 0..3; a *)
+(* trailer section ends at the first EMPTY line, RFC 9112 7.1.2 - the number of field lines before it changes    *)
+(* nothing: the request is complete there and nothing of it is left behind).  HEAD on every kind of target:     *)
+(*   "H" routed (the GET handler sets n octets)      "HD" NO route, the server has a DEFAULT handler that picks   *)
+(*   404 and sets n octets ("D" = GET on that target) "HM" the path exists under another method only (405)       *)
+(*   "HN" no route, no default handler (built-in 404)                                                            *)
+(* a response to a HEAD request carries no body octets whichever path produced it (HeadNoBody).  The default     *)
+(* handler is configuration of the server: a pipeline is run on ONE server, so "N"/"HN" (no default handler) and  *)
+(* "D"/"HD" never share a pipeline.                                                                              *)
+(* The connection: the octets of the pipeline reach the server in 1 + |cuts| SEGMENTS, with a pause before each  *)
+(* further segment (Deliver is enabled when the I/O thread has consumed what it could).  A cut <<i, o>> lies in   *)
+(* request i, o octets after the START of the CRLFCRLF that ends its header section (o = -1: inside the last      *)
+(* header line, 0: just before the terminator, 1..3: INSIDE the terminator, 4: just after it = before the body / *)
+(* the next request).  Request j can be extracted once every octet of it has been delivered - how the octets     *)
+(* were cut into segments changes nothing else.  Dev_ScanResumeSkips = TRUE: the search for the terminator       *)
+(* resumes behind the octets of the earlier segments, a terminator that straddles a cut is never found          *)
+(* (AllAnswered).  Dev_OneTrailerOnly = TRUE: the end of a chunked request is taken to be behind its FIRST       *)
+(* trailer field; what is left over ruins the rest of the stream (AllAnswered).  Dev_HeadBodyAfterHandler = TRUE: *)
+(* the HEAD body strip is skipped when a user handler ran for an unrouted target (HeadNoBody).                   *)
 EXTENDS Integers, Sequences, FiniteSets, TLC, Json
 
 CONSTANTS Variants,      \* set of request records
           MaxLen,        \* requests per pipeline
           Workers,       \* worker threads available to this connection
-          Dev_CompletionOrder, Dev_BadFramingWaits, Dev_SplitSendUnlocked, Dev_ExtractOnlyFirst, Dev_CloseDropsQueued
+          Dev_CompletionOrder, Dev_BadFramingWaits, Dev_SplitSendUnlocked, Dev_ExtractOnlyFirst, Dev_CloseDropsQueued,
+          MaxCuts,       \* segment boundaries per pipeline (0: one write)
+          CutOffsets,    \* subset of -1..4: positions relative to the start of the header terminator
+          SameReqCuts,   \* TRUE: two cuts lie in the same request
+          Dev_ScanResumeSkips, Dev_OneTrailerOnly, Dev_HeadBodyAfterHandler
 
 VARIABLES pipe, nextIn, ioStop, ioClosed, queue, running, finished, sent, closedBy, wire, closed, relOrder,
           lock,        \* holder of the send lock (0: free)
-          headed       \* large responses whose head has been written and whose body has not
-vars == <<pipe, nextIn, ioStop, ioClosed, queue, running, finished, sent, closedBy, wire, closed, relOrder, lock, headed>>
+          headed,      \* large responses whose head has been written and whose body has not
+          cuts,        \* segment boundaries <<i, o>> (chosen with the pipeline, constant afterwards)
+          delivered,   \* segments that have reached the server
+          bodied       \* HEAD requests whose response was written WITH body octets
+vars == <<pipe, nextIn, ioStop, ioClosed, queue, running, finished, sent, closedBy, wire, closed, relOrder, lock, headed, cuts, delivered, bodied>>
+seg == <<cuts, delivered, bodied>>
 
-Gated(r) == r.k \in {"G", "H", "P", "C", "T", "R", "L", "S204", "S304", "HS204", "HS304"}
+Gated(r) == r.k \in {"G", "H", "P", "C", "T", "R", "L", "S204", "S304", "HS204", "HS304", "D", "HD"}
+IsHead(r) == r.k \in {"H", "HS204", "HS304", "HD", "HM", "HN"}
+HasBody(r) == r.k = "C" \/ (r.k = "P" /\ r.n > 0)
+NeedsDefault(r) == r.k \in {"D", "HD"}
+NeedsNoDefault(r) == r.k \in {"N", "HN"}
 CloseSpellings == 1..6
 ASSUME \A v \in Variants : v.close = (v.sp \in CloseSpellings)
 Closing(r) == r.close \/ r.k \in {"B", "U"}
@@ -56,18 +88,41 @@ N == Len(pipe)
 RECURSIVE SeqsUpTo(_)
 SeqsUpTo(n) == IF n = 0 THEN {<<>>} ELSE LET S == SeqsUpTo(n - 1) IN S \cup {Append(q, v) : q \in {x \in S : Len(x) = n - 1}, v \in Variants}
 
-Init == /\ pipe \in (SeqsUpTo(MaxLen) \ {<<>>})
+\* ---- segmentation
+NC == Cardinality(cuts)
+CutKey(c) == c[1] * 10 + c[2] + 1
+CutAt(s) == CHOOSE c \in cuts : Cardinality({d \in cuts : CutKey(d) < CutKey(c)}) = s - 1
+\* every octet of request j lies before the cut c
+EndsBefore(j, c) == j < c[1] \/ (j = c[1] /\ c[2] = 4 /\ ~HasBody(pipe[j]))
+Available(j) == IF delivered > NC THEN TRUE ELSE EndsBefore(j, CutAt(delivered))
+SplitTerm(j) == \E c \in cuts : c[1] = j /\ c[2] \in 1..3
+CutSets(p) == LET P == {<<i, o>> \in (1..Len(p)) \X CutOffsets :
+                            /\ p[i].k # "U"                                             \* no cut inside an undecidable message
+                            /\ ~(i = Len(p) /\ o = 4 /\ ~HasBody(p[i]))} IN             \* the end of the stream is no cut
+              {S \in SUBSET P : Cardinality(S) <= MaxCuts /\ (SameReqCuts => \A a, b \in S : a[1] = b[1])}
+OneServer(p) == ~((\E i \in 1..Len(p) : NeedsDefault(p[i])) /\ (\E i \in 1..Len(p) : NeedsNoDefault(p[i])))
+
+Init == /\ pipe \in {p \in (SeqsUpTo(MaxLen) \ {<<>>}) : OneServer(p)}
+        /\ cuts \in CutSets(pipe) /\ delivered = 1 /\ bodied = {}
         /\ nextIn = 1 /\ ioStop = FALSE /\ ioClosed = FALSE /\ queue = <<>> /\ running = {} /\ finished = {} /\ sent = {} /\ closedBy = {}
         /\ wire = <<>> /\ closed = FALSE /\ relOrder = <<>> /\ lock = 0 /\ headed = {}
 
 \* handleIncomingData: the next complete request in the buffer (the whole pipeline arrived in one segment)
+IoCan == /\ ~ioStop /\ nextIn <= N /\ Available(nextIn)
+         /\ Dev_ExtractOnlyFirst => nextIn = 1
+         /\ Dev_ScanResumeSkips => ~SplitTerm(nextIn)
 IoExtract ==
-    /\ ~ioStop /\ nextIn <= N
-    /\ Dev_ExtractOnlyFirst => nextIn = 1
+    /\ IoCan
     /\ IF pipe[nextIn].k = "U"
        THEN ioStop' = TRUE /\ UNCHANGED <<queue, nextIn>>
-       ELSE queue' = Append(queue, nextIn) /\ nextIn' = nextIn + 1 /\ UNCHANGED ioStop
-    /\ UNCHANGED <<pipe, ioClosed, running, finished, sent, closedBy, wire, closed, relOrder, lock, headed>>
+       ELSE /\ queue' = Append(queue, nextIn) /\ nextIn' = nextIn + 1
+            /\ ioStop' = (Dev_OneTrailerOnly /\ pipe[nextIn].k = "C" /\ pipe[nextIn].tr >= 2)
+    /\ UNCHANGED <<pipe, ioClosed, running, finished, sent, closedBy, wire, closed, relOrder, lock, headed, seg>>
+
+\* the next segment reaches the server, after a pause: the I/O thread has consumed what it could
+Deliver == /\ delivered <= NC /\ ~IoCan
+           /\ delivered' = delivered + 1
+           /\ UNCHANGED <<pipe, nextIn, ioStop, ioClosed, queue, running, finished, sent, closedBy, wire, closed, relOrder, lock, headed, cuts, bodied>>
 
 \* closeSession from the I/O thread for a message whose length cannot be decided.  The code closes at once; the
 \* design the property describes lets the responses of the earlier requests out first
@@ -75,18 +130,18 @@ IoGiveUp ==
     /\ ioStop /\ ~ioClosed /\ ~Dev_BadFramingWaits
     /\ Dev_CompletionOrder \/ \A j \in 1..(nextIn - 1) : j \in sent /\ (Closing(pipe[j]) => j \in closedBy)
     /\ ioClosed' = TRUE /\ closed' = TRUE
-    /\ UNCHANGED <<pipe, nextIn, ioStop, queue, running, finished, sent, closedBy, wire, relOrder, lock, headed>>
+    /\ UNCHANGED <<pipe, nextIn, ioStop, queue, running, finished, sent, closedBy, wire, relOrder, lock, headed, seg>>
 
 Start == /\ queue # <<>> /\ Cardinality(running) < Workers
          /\ running' = running \cup {Head(queue)} /\ queue' = Tail(queue)
-         /\ UNCHANGED <<pipe, nextIn, ioStop, ioClosed, finished, sent, closedBy, wire, closed, relOrder, lock, headed>>
+         /\ UNCHANGED <<pipe, nextIn, ioStop, ioClosed, finished, sent, closedBy, wire, closed, relOrder, lock, headed, seg>>
 
 \* the handler (or the built-in 404/405/204/parse-error path) has produced its response object; a return while a
 \* large response is between its write steps is recorded as a negative entry
 Finish(i) == /\ i \in running /\ i \notin finished
              /\ finished' = finished \cup {i}
              /\ relOrder' = IF Gated(pipe[i]) THEN Append(relOrder, IF headed # {} THEN 0 - i ELSE i) ELSE relOrder
-             /\ UNCHANGED <<pipe, nextIn, ioStop, ioClosed, queue, running, sent, closedBy, wire, closed, lock, headed>>
+             /\ UNCHANGED <<pipe, nextIn, ioStop, ioClosed, queue, running, sent, closedBy, wire, closed, lock, headed, seg>>
 
 \* sequenced design: response i may be written once every earlier request of the connection is completely done
 EarlierDone(i) == \A j \in 1..(i - 1) : j \in sent /\ (Closing(pipe[j]) => j \in closedBy)
@@ -95,18 +150,19 @@ Put(x) == wire' = IF closed THEN wire ELSE Append(wire, x)          \* a send on
 Send(i) == /\ i \in finished /\ i \notin sent /\ ~Big(pipe[i]) /\ lock = 0
            /\ Dev_CompletionOrder \/ EarlierDone(i)
            /\ sent' = sent \cup {i} /\ Put(<<i, "w">>)
+           /\ bodied' = IF ~closed /\ Dev_HeadBodyAfterHandler /\ pipe[i].k = "HD" THEN bodied \cup {i} ELSE bodied
            /\ running' = IF Closing(pipe[i]) THEN running ELSE running \ {i}
-           /\ UNCHANGED <<pipe, nextIn, ioStop, ioClosed, queue, finished, closedBy, closed, relOrder, lock, headed>>
+           /\ UNCHANGED <<pipe, nextIn, ioStop, ioClosed, queue, finished, closedBy, closed, relOrder, lock, headed, cuts, delivered>>
 \* a large response: two write steps.  The lock is kept between them - unless Dev_SplitSendUnlocked
 SendHead(i) == /\ i \in finished /\ i \notin sent /\ i \notin headed /\ Big(pipe[i]) /\ lock = 0
                /\ Dev_CompletionOrder \/ EarlierDone(i)
                /\ headed' = headed \cup {i} /\ Put(<<i, "h">>)
                /\ lock' = IF Dev_SplitSendUnlocked THEN 0 ELSE i
-               /\ UNCHANGED <<pipe, nextIn, ioStop, ioClosed, queue, running, finished, sent, closedBy, closed, relOrder>>
+               /\ UNCHANGED <<pipe, nextIn, ioStop, ioClosed, queue, running, finished, sent, closedBy, closed, relOrder, seg>>
 SendBody(i) == /\ i \in headed /\ (lock = i \/ (Dev_SplitSendUnlocked /\ lock = 0))
                /\ headed' = headed \ {i} /\ sent' = sent \cup {i} /\ Put(<<i, "b">>) /\ lock' = 0
                /\ running' = IF Closing(pipe[i]) THEN running ELSE running \ {i}
-               /\ UNCHANGED <<pipe, nextIn, ioStop, ioClosed, queue, finished, closedBy, closed, relOrder>>
+               /\ UNCHANGED <<pipe, nextIn, ioStop, ioClosed, queue, finished, closedBy, closed, relOrder, seg>>
 
 \* the close command that follows the response of a closing request (not atomic with the send)
 \* (a large body that is the last thing on the wire may still be in the write queue: "t" = truncated body)
@@ -115,19 +171,21 @@ Close(i) == /\ i \in sent /\ Closing(pipe[i]) /\ i \notin closedBy
             /\ \/ UNCHANGED wire
                \/ /\ Dev_CloseDropsQueued /\ ~closed /\ wire # <<>> /\ wire[Len(wire)][2] = "b"
                   /\ wire' = [wire EXCEPT ![Len(wire)] = <<wire[Len(wire)][1], "t">>]
-            /\ UNCHANGED <<pipe, nextIn, ioStop, ioClosed, queue, finished, sent, relOrder, lock, headed>>
+            /\ UNCHANGED <<pipe, nextIn, ioStop, ioClosed, queue, finished, sent, relOrder, lock, headed, seg>>
 
 FinishStep == \E i \in 1..N : Finish(i)
 SendStep == \E i \in 1..N : Send(i)
 SendHeadStep == \E i \in 1..N : SendHead(i)
 SendBodyStep == \E i \in 1..N : SendBody(i)
 CloseStep == \E i \in 1..N : Close(i)
-Next == IoExtract \/ IoGiveUp \/ Start \/ FinishStep \/ SendStep \/ SendHeadStep \/ SendBodyStep \/ CloseStep
+Next == IoExtract \/ Deliver \/ IoGiveUp \/ Start \/ FinishStep \/ SendStep \/ SendHeadStep \/ SendBodyStep \/ CloseStep
 Spec == Init /\ [][Next]_vars
 
 \* ============================================================================================ the property
 Dispatched == 1..(nextIn - 1)
-Quiescent == /\ (ioStop \/ nextIn > N \/ (Dev_ExtractOnlyFirst /\ nextIn > 1)) /\ queue = <<>> /\ (ioStop => ioClosed \/ Dev_BadFramingWaits)
+Quiescent == /\ (ioStop \/ nextIn > N \/ (Dev_ExtractOnlyFirst /\ nextIn > 1) \/ (Dev_ScanResumeSkips /\ SplitTerm(nextIn)))
+             /\ delivered > NC
+             /\ queue = <<>> /\ (ioStop => ioClosed \/ Dev_BadFramingWaits \/ Dev_OneTrailerOnly)
              /\ \A i \in Dispatched : i \in sent /\ (Closing(pipe[i]) => i \in closedBy)
 FirstClosing == IF \E i \in 1..N : Closing(pipe[i]) THEN CHOOSE i \in 1..N : Closing(pipe[i]) /\ \A j \in 1..(i - 1) : ~Closing(pipe[j])
                 ELSE N + 1
@@ -151,9 +209,13 @@ AllAnswered == Quiescent =>
     ELSE /\ closed
          /\ Completed = Upto(c) \/ (RespOptional(pipe[c]) /\ Completed = Upto(c - 1))
 
+\* responses to HEAD carry no body
+HeadNoBody == \A i \in bodied : ~IsHead(pipe[i])
+
 \* export of the cases: printed once per terminal state (the check removes duplicates)
-ReqJson(r) == [k |-> r.k, n |-> r.n, close |-> r.close, sp |-> r.sp]
+ReqJson(r) == [k |-> r.k, n |-> r.n, close |-> r.close, sp |-> r.sp, tr |-> r.tr]
 WantResp == LET c == FirstClosing IN IF c > N THEN N ELSE IF pipe[c].k = "U" THEN c - 1 ELSE c
 CaseOut == Quiescent => PrintT(ToJson([pipe |-> [i \in 1..N |-> ReqJson(pipe[i])], order |-> relOrder,
-                                       wantResp |-> WantResp, wantClose |-> (FirstClosing <= N)]))
+                                       wantResp |-> WantResp, wantClose |-> (FirstClosing <= N),
+                                       cuts |-> [s \in 1..NC |-> <<CutAt(s)[1], CutAt(s)[2]>>]]))
 ==============================================================================
